@@ -40,7 +40,8 @@ var Quirks = []Quirk{
 	{ID: "C01-response-cookie-nonstring", Detect: hasNonStringResponseCookie, SigAny: []string{"server/encode_decode"}},
 	{ID: "C01-param-named-like-generated-local", Detect: hasParamNamedLikeLocal, SigAny: []string{"redeclared", "no new variables", "undefined (type", "cannot use", "invalid operation", "undefined: _"}},
 	{ID: "C01-union-in-inline-object", Detect: hasUnionInInlineObject, SigAny: []string{"struct{…}"}},
-	{ID: "C01-union-in-body-fields", Detect: hasUnionInBodyFields, SigAny: []string{"== nil (mismatched types", "cannot indirect"}},
+	{ID: "C01-union-in-body-fields", Detect: hasUnionInBodyFields, SigAny: []string{"== nil (mismatched types", "cannot indirect", "cannot use &_ (value of type *struct{…}"}},
+	{ID: "C01-result-type-response-cookie-with-default", Detect: hasResultTypeCookieWithDefault, SigAny: []string{"server/encode_decode: declared and not used"}},
 	{ID: "C01-bytes-param-with-length-validation", Detect: hasBytesParamWithLength, SigAny: []string{"client/cli: undefined: _"}},
 	{ID: "C01-result-type-required-validated-response-header", Detect: hasResultTypeRequiredValidatedHeader, SigAny: []string{"client/encode_decode: invalid operation: _ != nil (mismatched types"}},
 }
@@ -113,15 +114,53 @@ func hasUnionInInlineObject(d *m.Design) bool {
 	})
 }
 
-// hasUnionInBodyFields: an explicit request Body(func(){ Attribute(..) }) listing a OneOf attribute.
+// hasUnionInBodyFields: an explicit body naming a OneOf attribute: request
+// Body(func(){ Attribute(..) }) or Body("attr"), response Body("attr").
 func hasUnionInBodyFields(d *m.Design) bool {
 	return eachMethod(d, func(s *m.Service, meth *m.Method) bool {
-		if meth.HTTP == nil || meth.HTTP.Body == nil || meth.HTTP.Body.Mode != "fields" || meth.Payload == nil {
+		if meth.HTTP == nil {
 			return false
 		}
-		for _, n := range meth.HTTP.Body.Fields {
-			if f := d.FieldByName(meth.Payload, n); f != nil && isUnion(f.Attr) {
-				return true
+		if b := meth.HTTP.Body; b != nil && meth.Payload != nil {
+			names := b.Fields
+			if b.Mode == "attr" {
+				names = []string{b.Attr}
+			}
+			for _, n := range names {
+				if f := d.FieldByName(meth.Payload, n); f != nil && isUnion(f.Attr) {
+					return true
+				}
+			}
+		}
+		if meth.Result != nil {
+			for _, r := range meth.HTTP.Responses {
+				if r.Body != nil && r.Body.Mode == "attr" {
+					if f := d.FieldByName(meth.Result, r.Body.Attr); f != nil && isUnion(f.Attr) {
+						return true
+					}
+				}
+			}
+		}
+		return false
+	})
+}
+
+// hasResultTypeCookieWithDefault: an attribute of a result type that declares
+// a default and is carried in a response cookie.
+func hasResultTypeCookieWithDefault(d *m.Design) bool {
+	return eachMethod(d, func(s *m.Service, meth *m.Method) bool {
+		if meth.HTTP == nil || meth.Result == nil || meth.Result.Type.Kind != m.User {
+			return false
+		}
+		ut := d.TypeByName(meth.Result.Type.User)
+		if ut == nil || !ut.Result {
+			return false
+		}
+		for _, r := range meth.HTTP.Responses {
+			for _, c := range r.Cookies {
+				if f := d.FieldByName(meth.Result, c.Attr); f != nil && f.Attr.Default != nil {
+					return true
+				}
 			}
 		}
 		return false
